@@ -46,12 +46,13 @@ CasePair(kind, P, Q, R, a, b) ==
                  [] kind = "parallel"     -> LinePQ(Add3(R, Scale3(a, w)), R)                  \* direction a w through R
                  [] kind = "intersecting" -> LinePQ(Add3(P, Scale3(a, w)), R)                  \* through a point of L1 and R
                  [] kind = "coincident"   -> LinePQ(Add3(P, Scale3(a + b, w)), Add3(P, Scale3(b, w)))   \* direction a w, a > 0
+                 [] kind = "reversed"     -> LinePQ(Add3(P, Scale3(b, w)), Add3(P, Scale3(a + b, w)))   \* same points, direction -a w
      IN /\ a # 0
         /\ L2.w # <<0,0,0>>
         /\ (kind = "general"      => ~Parallel(L1, L2) /\ Recip(L1, L2) # 0)
         /\ (kind = "parallel"     => ~Contains(L1, R))
         /\ (kind = "intersecting" => ~Contains(L1, R))
-        /\ (kind = "coincident"   => a > 0)
+        /\ (kind \in {"coincident", "reversed"} => a > 0)
         /\ Do([k |-> "pair", kind |-> kind, L1 |-> [P |-> P, Q |-> Q],
                L2 |-> [v |-> L2.v, w |-> L2.w], X |-> Add3(P, Scale3(a, w))],
               [parallel |-> Parallel(L1, L2), meets |-> Meets(L1, L2), same |-> SameLine(L1, L2),
@@ -92,7 +93,7 @@ Next ==
   \/ \E P \in Pts : \E D \in Dirs : CasePointDir(P, D)
   \/ \E p1 \in Planes : \E p2 \in Planes : CasePlanes(p1, p2)
   \/ \E m \in Motions : \E P \in Pts : \E Q \in Pts : CaseTransform(m, P, Q)
-  \/ \E kind \in {"general", "parallel", "intersecting", "coincident"} : \E P \in Pts : \E Q \in Pts : \E R \in Pts :
+  \/ \E kind \in {"general", "parallel", "intersecting", "coincident", "reversed"} : \E P \in Pts : \E Q \in Pts : \E R \in Pts :
         \E a \in {-2, 3} : \E b \in {2} : CasePair(kind, P, Q, R, a, b)
   \/ \E P \in Pts : \E Q \in Pts : \E x \in Dirs : \E R \in Pts : \E kexp \in {10, 16, 22, 24} : CaseNear(P, Q, x, R, kexp)
   \/ \E P \in Pts : \E Q \in Pts : \E pl \in Planes : CaseHit(P, Q, pl)
@@ -104,6 +105,8 @@ PairSanity ==
     /\ (c.kind = "parallel"     => ans.parallel /\ ~ans.meets /\ ~ans.same /\ ans.dist2.n > 0)
     /\ (c.kind = "intersecting" => ~ans.parallel /\ ans.meets /\ ans.dist2.n = 0)
     /\ (c.kind = "coincident"   => ans.parallel /\ ans.same /\ ans.dist2.n = 0)
+    \* the same set of points with the OPPOSITE orientation is a different (oriented) line
+    /\ (c.kind = "reversed"     => ans.parallel /\ ~ans.same /\ ans.dist2.n = 0)
     /\ (c.kind = "general"      => ~ans.parallel /\ ~ans.meets /\ ans.dist2.n > 0)
 
 EdgeOut == PrintT(ToJson([c |-> c', ans |-> ans']))
